@@ -685,6 +685,9 @@ def run(ctx):
             if ddim != D.par_dim and st != "err":
                 ctx.fail("rename:dimension", desc, "ValueError for a distribution of the wrong dimension", impl)
 
+    # -------------------------------------------------------------------- call histories on one model object
+    histories(ctx, cuqi, rng, lines, pending, verdicts, 400 if thorough else 40)
+
     # -------------------------------------------------------------------- model side + diff
     outs = ctx.lean.drive(lines)
     inexact = 0
@@ -728,6 +731,178 @@ def run(ctx):
                 if f["case"].get("call") == desc.get("call"):
                     ctx.fail(key, f["case"], f["demanded"], f["got"], f["what"] + " [found while searching near a model/implementation disagreement]")
                     break
+
+
+# callables that are correct on one vector but are NOT column-vectorised: on a (dim, N) array they do something
+# else or raise, so "apply to each column" and "apply once to the whole array" differ
+def _raw_callables(n, rng):
+    k = rng.randint(-2, 3, size=n).astype(float)
+    k3 = rng.randint(-2, 3, size=min(3, n)).astype(float)
+    return {
+        "roll": lambda x: np.roll(np.asarray(x, dtype=float), 1),                    # rolls the flattened array for 2-D input
+        "reverse": lambda x: np.asarray(x, dtype=float)[::-1].copy(),                # reverses the rows, i.e. each column - but see cumsum
+        "cumsum": lambda x: np.cumsum(np.asarray(x, dtype=float)),                   # flattens a 2-D input
+        "fft-circular": lambda x: np.real(np.fft.ifft(np.fft.fft(np.asarray(x, dtype=float)) * np.fft.fft(k))),   # last axis of a 2-D input
+        "convolve": lambda x: np.convolve(np.asarray(x, dtype=float), k3, mode="same"),   # raises on 2-D input
+        "reshape": lambda x: 2.0 * np.asarray(x, dtype=float).reshape(n) + np.roll(np.asarray(x, dtype=float).reshape(n), -1),  # raises on 2-D input
+        "diff-sorted-index": lambda x: np.asarray(x, dtype=float)[np.arange(n)[::-1]] - np.asarray(x, dtype=float)[0],
+    }
+
+
+def histories(ctx, cuqi, rng, lines, pending, verdicts, nhist):
+    """(A) sequences of calls on ONE model object followed by forward/adjoint on Samples / CUQIarray / vector;
+    (B) function-backed LinearModels (and matrix-backed ones) whose callables are not column-vectorised.
+    The model is pure, so its prediction for the probes does not depend on the history; the oracle is an explicit
+    python loop over fresh columns and the comparison before / after the history."""
+    from cuqi.array import CUQIarray
+    from cuqi.samples import Samples
+    G = cuqi.geometry
+    OPS = ["get_matrix", "T", "T.get_matrix", "T.forward", "gradient", "forward-vec", "forward-arr", "adjoint-vec",
+           "forward-samples", "adjoint-samples", "matmul"]
+    hist_ops = ctx.extra_cov.setdefault("history_ops", {})
+    for hi in range(nhist):
+        n = int(rng.randint(2, 6))
+        raws = _raw_callables(n, rng)
+        names = sorted(raws)
+        cname = names[hi % len(names)]
+        backed = "matrix" if hi % 5 == 4 else "function"
+        raw = raws[cname]
+        A = np.column_stack([raw(e) for e in np.eye(n)])            # the callable is linear: its matrix (harness' own evaluation)
+        exact = cname != "fft-circular"
+        tol = 1e-12 if exact else TOL
+
+        def mk_geom(kind):
+            if kind == "int":
+                return n
+            if kind == "cont1d":
+                return G.Continuous1D(n)
+            if kind == "discrete":
+                return G.Discrete(n)
+            return G.Continuous1D(np.arange(n) * 0.5 + 1.0)
+        dkind = ["int", "cont1d", "default", "discrete", "grid"][hi % 5] if hi < 10 else str(rng.choice(["int", "cont1d", "discrete", "grid"]))
+        rkind = str(rng.choice(["int", "cont1d", "discrete", "grid"]))
+        Dobj = None if dkind == "default" else mk_geom(dkind)
+        Robj = None if dkind == "default" else mk_geom(rkind)
+        fwd_calls = {"n": 0, "max_ndim": 0}
+
+        def forward(x, raw=raw, fwd_calls=fwd_calls):
+            fwd_calls["n"] += 1
+            fwd_calls["max_ndim"] = max(fwd_calls["max_ndim"], np.ndim(x))
+            return raw(x)
+
+        def adjoint(y, A=A, n=n):
+            return A.T @ np.asarray(y, dtype=float).reshape(n)          # refuses a 2-D array
+        try:
+            with quiet():
+                if backed == "matrix" or dkind == "default":
+                    backed = "matrix"
+                    model = cuqi.model.LinearModel(A.copy(), range_geometry=Robj, domain_geometry=Dobj)
+                    mtok = f"linmat:{qm(A)}"
+                else:
+                    model = cuqi.model.LinearModel(forward, adjoint, range_geometry=Robj, domain_geometry=Dobj)
+                    mtok = f"linfun:0:{qm(A)}:{qm(A.T)}:x"
+        except Exception as e:
+            ctx.note(f"history: constructor refused {cname}/{dkind}: {type(e).__name__}")
+            continue
+        Dg, Rg = model.domain_geometry, model.range_geometry
+
+        def eq_eval(a_, b_):
+            try:
+                with quiet():
+                    return "T" if bool(a_ == b_) else "F"
+            except IndexError:
+                return "I"
+            except KeyError:
+                return "K"
+        eqr = eq_eval(Dg, Rg) + eq_eval(Rg, Dg)
+        canon = Canon(cuqi, [(Dg, 0), (Rg, 1)])
+        Ns = int(rng.randint(2, 5))
+        Xs = rng.randint(-3, 4, size=(n, Ns)).astype(float)
+        Ys = rng.randint(-3, 4, size=(n, Ns)).astype(float)
+        x, y = Xs[:, 0].copy(), Ys[:, 0].copy()
+        nops = int(rng.randint(1, 6))
+        ops = [str(o) for o in rng.choice(OPS, size=nops)]
+        if hi % 2 == 0:
+            ops = ["get_matrix"] + ops          # the caching call first in half of the histories
+        Dt, Rt = "id:0:1:none", "id:1:1:none"
+        # probes: (label, thunk, driver line)  -- adjoint = forward of the swapped model
+        fw = lambda tok, ip=True: f"fwd {mtok} {Dt} {Rt} {eqr} {tok} {tok_bool(ip)} 1 _"
+        adj_tok = f"linfun:0:{qm(A.T)}:{qm(A)}:y" if backed == "function" else f"linmat:{qm(A.T)}"
+        ad = lambda tok: f"fwd {adj_tok} id:1:1:none id:0:1:none {eqr[::-1]} {tok.replace(':0:', ':1:', 1) if tok.startswith(('arr:1:0', 'smp:1:0')) else tok} 1 1 _"
+        probes = [
+            ("forward-samples", lambda: model.forward(Samples(Xs.copy(), geometry=Dg)), fw(f"smp:1:0:{qm(Xs.T)}")),
+            ("forward-samples-nogeom", lambda: model.forward(Samples(Xs.copy())), fw(f"smp:1:7:{qm(Xs.T)}")),
+            ("matmul-samples", lambda: model @ Samples(Xs.copy(), geometry=Dg), fw(f"smp:1:0:{qm(Xs.T)}")),
+            ("forward-vec", lambda: model.forward(x.copy()), fw(f"nd:{qv(x)}")),
+            ("forward-arr", lambda: model.forward(CUQIarray(x.copy(), geometry=Dg)), fw(f"arr:1:0:{qv(x)}")),
+            ("adjoint-samples", lambda: model.adjoint(Samples(Ys.copy(), geometry=Rg)), ad(f"smp:1:1:{qm(Ys.T)}")),
+            ("adjoint-vec", lambda: model.adjoint(y.copy()), ad(f"nd:{qv(y)}")),
+            ("adjoint-arr", lambda: model.adjoint(CUQIarray(y.copy(), geometry=Rg)), ad(f"arr:1:1:{qv(y)}")),
+        ]
+        conf = {"history": True, "callable": cname, "backed": backed, "domain": dkind, "range": rkind, "n": n, "ops": ops,
+                "seed_index": 100000 + hi, "Xs": Xs.tolist(), "Ys": Ys.tolist()}
+
+        def run_probes():
+            out = {}
+            for lab, th, _ in probes:
+                st, val = call(th)
+                out[lab] = canon(val) if st == "ok" else ("err", val)
+            return out
+        before = run_probes()
+        # the history
+        for o in ops:
+            hist_ops[o] = hist_ops.get(o, 0) + 1
+            try:
+                with quiet():
+                    if o == "get_matrix":
+                        model.get_matrix()
+                    elif o == "T":
+                        model.T
+                    elif o == "T.get_matrix":
+                        model.T.get_matrix()
+                    elif o == "T.forward":
+                        model.T.forward(y.copy())
+                    elif o == "gradient":
+                        model.gradient(y.copy(), x.copy())
+                    elif o == "forward-vec":
+                        model.forward(x.copy())
+                    elif o == "forward-arr":
+                        model.forward(CUQIarray(x.copy(), geometry=Dg))
+                    elif o == "adjoint-vec":
+                        model.adjoint(y.copy())
+                    elif o == "forward-samples":
+                        model.forward(Samples(Xs.copy(), geometry=Dg))
+                    elif o == "adjoint-samples":
+                        model.adjoint(Samples(Ys.copy(), geometry=Rg))
+                    elif o == "matmul":
+                        model @ x.copy()
+            except Exception as e:
+                ctx.note(f"history op {o} raised {type(e).__name__} ({cname}, {backed}, {dkind}->{rkind})")
+        after = run_probes()
+        # oracle: explicit loop over fresh columns with the raw callable / the transposed matrix
+        fcols = np.column_stack([raw(Xs[:, j].copy()) for j in range(Ns)])
+        acols = np.column_stack([A.T @ Ys[:, j].copy() for j in range(Ns)])
+        want = {"forward-samples": ("smp", 1, True, fcols), "forward-samples-nogeom": ("smp", 1, True, fcols),
+                "matmul-samples": ("smp", 1, True, fcols),
+                "forward-vec": ("nd", fcols[:, 0]), "forward-arr": ("arr", True, 1, fcols[:, 0]),
+                "adjoint-samples": ("smp", 0, True, acols), "adjoint-vec": ("nd", acols[:, 0]), "adjoint-arr": ("arr", True, 0, acols[:, 0])}
+        eq_bad = ("I" in eqr) or ("K" in eqr)
+        for (lab, th, line), when, res in [(p, w, r[p[0]]) for p in probes for w, r in (("fresh", before), ("after-history", after))]:
+            desc = {**conf, "call": "history", "probe": lab, "when": when}
+            ctx.case(f"history:{lab}:{when}", desc, nontrivial=True)
+            lines.append(line); pending.append((len(lines) - 1, f"tie:history:{lab}:{when}", desc, res, tol))
+            if eq_bad and lab.endswith("arr"):
+                continue          # the geometry comparison raises for CUQIarray inputs here (listed finding, covered in the main stream)
+            if not same_canon(res, want[lab], tol):
+                ctx.fail(f"history:{lab}:{when}:{'samples-columnwise' if 'samples' in lab else 'value'}", desc, short(want[lab]), short(res),
+                         "the output is not the column-by-column application of the model's function / depends on what was called before")
+                verdicts["history:wrong"] = verdicts.get("history:wrong", 0) + 1
+            else:
+                verdicts["history:ok"] = verdicts.get("history:ok", 0) + 1
+        for lab in before:
+            if not same_canon(before[lab], after[lab], tol):
+                desc = {**conf, "call": "history", "probe": lab, "when": "before-vs-after"}
+                ctx.fail(f"history:{lab}:depends-on-history", desc, short(before[lab]), short(after[lab]), "the same call gives another result after the history")
 
 
 IN_SCOPE_FWD = ["nd-par", "nd-par-kw", "nd-fun", "arr-par", "arr-par-eqgeom", "arr-par-argF", "arr-fun", "arr-fun-argF"]
